@@ -77,6 +77,32 @@ pub fn e1() -> Vec<String> {
     out
 }
 
+/// Predicates two and three productions deep: every comparison of two small leaves, bare and under the
+/// wrappers a predicate is written with (parentheses, negation of the parenthesised form, double negation,
+/// conjunction / disjunction with a leaf).  A rewrite keyed on the exact shape of a predicate (`!(a < b)`,
+/// `x == literal`, ...) is only reachable at this depth.
+pub fn predicates() -> Vec<String> {
+    let leaves = ["a", "b", "@", "`1`", "'a'", "`null`", "a.b", "[0]"];
+    let mut base: Vec<String> = Vec::new();
+    for op in ["==", "!=", "<", "<=", ">", ">="] {
+        for x in leaves {
+            for y in leaves {
+                base.push(format!("{} {} {}", x, op, y));
+            }
+        }
+    }
+    let mut out = Vec::new();
+    for p in &base {
+        for w in ["P", "(P)", "!(P)", "!P", "!!(P)", "!(!(P))", "P && b", "a || P", "!(P) && a", "!(P) || `null`", "(P) == `true`", "!(P) == `true`"] {
+            out.push(w.replace('P', p));
+        }
+    }
+    out
+}
+
+/// the contexts a predicate is evaluated in
+pub const PRED_CONTEXTS: &[&str] = &["P", "[?P]", "a[?P]", "[?P].a", "[?P] | [0]", "[?P][0]", "{x: P}.x", "[P, P]", "[*].[?P]", "*[?P]", "[?P] | length(@)"];
+
 thread_local! {
     static POOL: std::cell::RefCell<Option<Pool>> = std::cell::RefCell::new(None);
     static POOL_FULL: std::cell::RefCell<Option<Pool>> = std::cell::RefCell::new(None);
@@ -301,9 +327,22 @@ pub fn run(tier: Tier) -> i32 {
         st.count("medium_size_expressions", se.states);
         st = st.merge(se);
     }
+    // (f) predicates two and three productions deep, in every context a predicate can stand in
+    {
+        let preds = predicates();
+        let sf = par_sweep(preds.chunks(32).map(|c| c.to_vec()).collect::<Vec<_>>(), |chunk: &Vec<String>, st| {
+            for p in chunk {
+                for c in PRED_CONTEXTS {
+                    with_pool(false, |pool| check_expr(&c.replace('P', p), pool, "predicates", st));
+                }
+            }
+        });
+        st.count("predicate_expressions", sf.states);
+        st = st.merge(sf);
+    }
     rep.guard("some expressions yield non-null results", st.nontrivial > 100);
     rep.guard("more than 1000 expressions explored", st.states > 1000);
-    rep.rule = "(a) every sentence of the grammar over the core token alphabet up to the length bound (DFS over viable prefixes) and (b) every composed expression E1 = production(E0,E0), E2 = production(E1, E0|E1); each expression is searched on every document of the pool by the implementation and by the reference interpreter R-eval(R-parse(e), d). states = expressions, transitions = (expression, document) pairs; non-trivial = the expression has a non-null result on at least one document (d) 20 leaves with delimiter characters and escapes inside raw strings, literals and quoted identifiers x 13 contexts. (e) short sentences, E1 and short chains on documents with containers of medium size (6 shapes per size).".into();
+    rep.rule = "(a) every sentence of the grammar over the core token alphabet up to the length bound (DFS over viable prefixes) and (b) every composed expression E1 = production(E0,E0), E2 = production(E1, E0|E1); each expression is searched on every document of the pool by the implementation and by the reference interpreter R-eval(R-parse(e), d). states = expressions, transitions = (expression, document) pairs; non-trivial = the expression has a non-null result on at least one document (d) 20 leaves with delimiter characters and escapes inside raw strings, literals and quoted identifiers x 13 contexts. (f) every comparison of two of 8 leaves under 12 predicate wrappers in 11 contexts. (e) short sentences, E1 and short chains on documents with containers of medium size (6 shapes per size).".into();
     rep.bounds = json!({"medium_document_sizes": tier.pick(vec![16, 17, 33], vec![15, 16, 17, 31, 32, 33, 63, 64, 65, 129, 257]), "medium_document_expressions": "sentences <= 4 (5) tokens + E1 + postfix chains <= 2 (3)", "sentence_len": l, "alphabet": alpha.texts, "documents": if full { pool_full().len() } else { pool_quick().len() }, "postfix_chain_len": clen, "postfix": POSTFIX, "bases": BASES, "E0": e0v, "unary": UNARY, "binary": BINARY, "E2": if full {"E1 x E0 and E0 x E1 for all binary productions on the full pool; E1 x E1 for | [?] [,] && on the core pool"} else {"E1 x E0 and E0 x E1 for binary productions"}, "thorough_pools": "sentences of the longest length and the longest postfix chains use the core pool, everything shorter the full pool"});
     rep.assumptions = vec![
         "reference semantics = DESIGN Appendix A, bound to the compliance fixtures at check start".into(),
